@@ -329,21 +329,24 @@ class _WriteLock(_BaseLock):
             return
         if state.read > 0:
             # A reader that upgraded to a writer is now downgrading back to
-            # reader. In this case we "hack" the _read_switch to indicate we're
-            # still holding it. We can't acquire it "normally" by calling
-            # LightSwitch.acquire as we already hold _block_writers (which is
-            # not re-entrant), so we hack the internal count to 1 but maintain
-            # our hold on _block_writers.
+            # reader. Release _block_writers, then re-enter _read_switch in the
+            # normal way while still holding _block_readers, and only then
+            # release _block_readers. Holding _block_readers throughout means
+            # no other writer can obtain the lock during the downgrade (other
+            # readers that already passed _block_readers may enter, which is
+            # harmless).
+            #
+            # NOTE: we must not touch _read_switch._mutex while still holding
+            # _block_writers: a reader that is inside LightSwitch.acquire holds
+            # the mutex while it waits for _block_writers, so waiting for the
+            # mutex here would deadlock with it.
             #
             # NOTE: the read switch count is the number of *distinct threads*
-            # that hold the read switch (which must be 1 in the case of a
-            # downgraded writer), *not* the number of re-entrant read locks
-            # this thread held before upgrade
+            # that hold the read switch, *not* the number of re-entrant read
+            # locks this thread held before upgrade
             assert state.ignored == 0, 'released write before releasing read'
-            with self._read_switch._mutex:
-                assert self._read_switch._counter == 0, (
-                    'upgraders and readers co-existing')
-                self._read_switch._counter = 1
+            self._block_writers.release()
+            self._read_switch.acquire()
             self._block_readers.release()
             return
         self._block_readers.release()
